@@ -27,8 +27,15 @@ class B:
             return i
         pool = self.pools.get(table)
         if pool is None:
-            pool = self.rng.sample(range(0, 900), 120) if self.label_mode == "sparse" else \
-                self.rng.sample(range(100000, 100900), 120)
+            if self.label_mode == "sparse":
+                pool = self.rng.sample(range(0, 900), 120)
+            elif self.label_mode == "large":
+                pool = self.rng.sample(range(100000, 100900), 120)
+            elif self.label_mode == "reversed":
+                pool = list(range(0, 40))             # popped from the end: 39, 38, ... (creation order != label order)
+            else:                                     # "shuffled": small labels in random order, gaps at the start
+                pool = self.rng.sample(range(0, 24), 24) + list(range(24, 60))[::-1]
+                pool = pool[::-1]
             self.pools[table] = pool
         return pool.pop()
 
@@ -132,11 +139,15 @@ HC_MODES = ["MF_QE", "MF_DT", "MF_TR", "QE_DT", "QE_TR"]
 def loop(rng, n_cons=None, pump=None, modes=None, bidirectional_ok=True):
     """supply / return ladder with a circulation pump; rung i carries a heat consumer (any mode), or a
     flow control + heat exchanger.  With a mass pump the last rung is a bypass pipe."""
-    b = B(rng, rng.choice(["contig", "contig", "sparse", "large"]))
+    b = B(rng, rng.choice(["contig", "shuffled", "reversed", "sparse", "large"]))
     k = n_cons or rng.randint(1, 6)
     p0, tf = rng.choice([5., 8.]), rng.choice([350.15, 365.15, 380.15])
     pump = pump or rng.choice(["pressure", "pressure", "mass"])
     lossless = rng.random() < 0.3
+    if rng.random() < 0.4:
+        # junctions that are out of service / unused in front of the loop: internal positions != creation order
+        for _ in range(rng.randint(1, 3)):
+            b.add("create_junction", "junction", pn_bar=p0, tfluid_k=tf - rng.choice([10, 60]), in_service=rng.random() < 0.5)
     sup = [b.junction(t=tf - 5, p=p0) for _ in range(k + 1)]
     ret = [b.junction(t=tf - 40, p=p0) for _ in range(k + 1)]
     for i in range(k):
@@ -165,8 +176,14 @@ def loop(rng, n_cons=None, pump=None, modes=None, bidirectional_ok=True):
             mid = b.junction(t=tf - 20, p=p0)
             b.add("create_flow_control", "flow_control", from_junction=sup[i], to_junction=mid,
                   controlled_mdot_kg_per_s=md)
-            b.add("create_heat_exchanger", "heat_exchanger", from_junction=mid, to_junction=ret[i],
-                  qext_w=rng.choice([20000., 40000.]) * (-0.5 if neg else 1), inner_diameter_mm=80.)
+            hx = dict(from_junction=mid, to_junction=ret[i])
+            against = rng.random() < 0.5
+            if against:                                  # drawn against the flow: inlet is the to_junction
+                hx = dict(from_junction=ret[i], to_junction=mid)
+            b.add("create_heat_exchanger", "heat_exchanger", qext_w=rng.choice([20000., 40000., 90000.]) * (-0.5 if neg else 1),
+                  inner_diameter_mm=80., **hx)
+            if against:
+                mode = "FC_HEX<"
         else:
             b.add("create_heat_consumer", "heat_consumer", **kw)
         rungs.append(mode + ("-" if neg else ""))
